@@ -1,192 +1,1067 @@
-(* SrcLife_proofs.v — (1) the record-level rmw bodies of Model/SrcLife.v are the generated bodies of Gen_srclife on the
-   decoded bits of any 32-bit word; (2) invariants of the source life-cycle model for every reachable state: any number of
-   cancelling threads, any interleaving of cancel / events / invoke phases. *)
+(* SrcLife_proofs.v — invariants of the source life-cycle model (Model/SrcLife.v) for every reachable state: any number of
+   cancelling threads, any interleaving of cancel / cancel_and_wait / events / phases of the lock owner.
+   Owicki-Gries style: Inv g := GInv g /\ forall t, TInv g t; the per-phase lemmas are in SrcLife_phase_proofs.v. *)
 From Coq Require Import ZArith Bool List Lia.
-From Verif Require Import Word Bits Conc Gen_consts Gen_srclife SrcLife.
+From Verif Require Import Word Bits Conc Gen_consts Gen_srclife SrcLife SrcLife_phase_proofs.
 Import ListNotations.
 Local Open Scope Z_scope.
-
-(* ------------------------------------------------------------------ bits *)
-Lemma nz_land_pow2 z k : 0 <= k -> nz (Z.land z (2 ^ k)) = Z.testbit z k.
-Proof.
-  intros Hk. unfold nz. destruct (Z.testbit z k) eqn:E.
-  - destruct (Z.eqb_spec (Z.land z (2 ^ k)) 0) as [H|]; [|reflexivity].
-    assert (X : Z.testbit (Z.land z (2 ^ k)) k = true) by (rewrite Z.land_spec, E, Z.pow2_bits_true by lia; reflexivity).
-    rewrite H, Z.bits_0 in X. discriminate.
-  - destruct (Z.eqb_spec (Z.land z (2 ^ k)) 0) as [|H]; [reflexivity|]. exfalso. apply H.
-    apply Z.bits_inj'. intros n Hn. rewrite Z.land_spec, Z.bits_0.
-    destruct (Z.eq_dec n k) as [->|Ne]; [rewrite E; reflexivity|].
-    rewrite Z.pow2_bits_false by lia. apply andb_false_r.
-Qed.
-Lemma nz_land_two z a b : 0 <= a -> 0 <= b ->
-  nz (Z.land z (Z.lor (2 ^ a) (2 ^ b))) = Z.testbit z a || Z.testbit z b.
-Proof.
-  intros Ha Hb. rewrite Z.land_lor_distr_r. unfold nz.
-  rewrite <- (nz_land_pow2 z a Ha), <- (nz_land_pow2 z b Hb). unfold nz.
-  destruct (Z.eqb_spec (Z.land z (2 ^ a)) 0) as [E1|E1], (Z.eqb_spec (Z.land z (2 ^ b)) 0) as [E2|E2]; cbn;
-    destruct (Z.eqb_spec (Z.lor (Z.land z (2 ^ a)) (Z.land z (2 ^ b))) 0) as [E|E]; try reflexivity; exfalso.
-  - apply E. rewrite E1, E2. reflexivity.
-  - apply Z.lor_eq_0_iff in E. tauto.
-  - apply Z.lor_eq_0_iff in E. tauto.
-  - apply Z.lor_eq_0_iff in E. tauto.
-Qed.
-
-Lemma tb_lor_pow2 z k n : 0 <= k -> 0 <= n -> Z.testbit (Z.lor z (2 ^ k)) n = Z.testbit z n || (k =? n).
-Proof. intros. rewrite Z.lor_spec, Z.pow2_bits_eqb by lia. reflexivity. Qed.
-
-Ltac evalb :=
-  repeat match goal with
-         | |- context [Z.eqb ?a ?b] =>
-             match a with Zpos _ => match b with Zpos _ =>
-               let v := eval vm_compute in (Z.eqb a b) in change (Z.eqb a b) with v end end
-         end;
-  rewrite ?orb_false_r, ?orb_true_r, ?andb_true_r, ?andb_false_r.
-
-Ltac bits :=
-  unfold dec, BIT_CANCELED, BIT_WAITER, BIT_NEEDS_EVENT, BIT_DELETED, BIT_RELEASED;
-  repeat (rewrite ?Z.lor_spec, ?Z.land_spec);
-  repeat match goal with
-         | |- context [Z.testbit ?c ?n] =>
-             match c with
-             | Zpos _ => let v := eval vm_compute in (Z.testbit c n) in change (Z.testbit c n) with v
-             end
-         end;
-  rewrite ?orb_false_r, ?orb_true_r, ?andb_true_r, ?andb_false_r.
-
-(* dispatch_source_cancel: os_atomic_or_orig(dq_atomic_flags, DSF_CANCELED) *)
-Lemma dec_or_canceled z : dec (Z.lor z DSF_CANCELED) = set_canceled (dec z).
-Proof. unfold DSF_CANCELED, set_canceled. bits. reflexivity. Qed.
-Lemma dec_or_released z : dec (Z.lor z DQF_RELEASED) = set_released (dec z).
-Proof. unfold DQF_RELEASED, set_released. bits. reflexivity. Qed.
-Lemma dec_or_waiter z : dec (Z.lor z DSF_CANCEL_WAITER) = set_waiter (dec z).
-Proof. unfold DSF_CANCEL_WAITER, set_waiter. bits. reflexivity. Qed.
-
-(* the first loop of dispatch_source_cancel_and_wait (source.c:1009) *)
-Lemma gen_caw_loop ds z (k : kind) :
-  match cancel_and_wait_loop ds z (b2z (k_timer k)) (b2z (k_direct k)) with
-  | Commit n _ => m_caw_loop k (dec z) = Some (dec n)
-  | NoCommit _ _ => m_caw_loop k (dec z) = None
-  | _ => False
-  end.
-Proof.
-  unfold cancel_and_wait_loop, m_caw_loop.
-  change 536870912 with (2 ^ 29). change 2147483648 with (2 ^ 31). change 1073741824 with (2 ^ 30).
-  rewrite !nz_land_pow2 by lia.
-  change (waiter (dec z)) with (Z.testbit z 29). change (deleted (dec z)) with (Z.testbit z 31).
-  change (needs_event (dec z)) with (Z.testbit z 30).
-  destruct (Z.testbit z 29) eqn:E29; [reflexivity|].
-  assert (Ht : nz (b2z (k_timer k)) = k_timer k) by (destruct (k_timer k); reflexivity).
-  assert (Hd : nz (b2z (k_direct k)) = k_direct k) by (destruct (k_direct k); reflexivity).
-  rewrite Ht, Hd. f_equal.
-  destruct (Z.testbit z 31) eqn:E31.
-  - unfold dec, BIT_CANCELED, BIT_WAITER, BIT_NEEDS_EVENT, BIT_DELETED, BIT_RELEASED.
-    change 268435456 with (2 ^ 28). rewrite !tb_lor_pow2 by lia. evalb. rewrite E29, E31. reflexivity.
-  - destruct (Z.testbit z 30 || k_timer k || negb (k_direct k)) eqn:Ew;
-      unfold dec, BIT_CANCELED, BIT_WAITER, BIT_NEEDS_EVENT, BIT_DELETED, BIT_RELEASED;
-      change 268435456 with (2 ^ 28); rewrite !tb_lor_pow2 by lia; evalb; rewrite E29, E31; reflexivity.
-Qed.
-
-(* _dispatch_source_refs_finalize_unregistration's set_and_clear (source.c:594): whether it commits or finds nothing to
-   change, the word afterwards decodes to m_finalize *)
-Lemma gen_finalize dqu z :
-  match flags_set_and_clear_loop dqu DSF_DELETED (Z.lor DSF_NEEDS_EVENT DSF_CANCEL_WAITER) z with
-  | Commit n _ => dec n = m_finalize (dec z)
-  | NoCommit _ _ => dec z = m_finalize (dec z)
-  | _ => False
-  end.
-Proof.
-  unfold flags_set_and_clear_loop, m_finalize, DSF_DELETED, DSF_NEEDS_EVENT, DSF_CANCEL_WAITER, not32.
-  set (n := Z.land (Z.lor z 2147483648) (4294967295 - Z.lor 1073741824 536870912)).
-  assert (Hn : dec n = {| canceled := canceled (dec z); waiter := false; needs_event := false; deleted := true;
-                          released := released (dec z) |}).
-  { subst n. change (4294967295 - Z.lor 1073741824 536870912) with 2684354559. bits. reflexivity. }
-  destruct (Z.eqb_spec n z) as [E|E]; [rewrite <- E at 1|]; exact Hn.
-Qed.
-
-(* ------------------------------------------------------------------ one phase of invoke2: what it can do *)
-Ltac pick c :=
-  match c with
-  | ?a && _ => pick a
-  | ?a || _ => pick a
-  | negb ?a => pick a
-  | queue_eqb ?a ?b => first [is_var a; destruct a | is_var b; destruct b]
-  | match ?a with _ => _ end => pick a
-  | if ?a then _ else _ => pick a
-  | ?v => is_var v; destruct v
-  end.
-Ltac split_ifs H :=
-  repeat (cbn in H;
-          match type of H with
-          | context [if ?c then _ else _] => pick c
-          | context [match ?c with RNone => _ | _ => _ end] => pick c
-          end).
-Ltac open_i i :=
-  destruct i as [s0 pc dqf r0 av];
-  destruct s0 as [f inst w ar nd he hc hr pe kr]; destruct f as [fc fw fn fd fr];
-  destruct dqf as [dc dw dn dd dr].
-Ltac unf H :=
-  unfold phase, install, refs_unregister, finalize, cancel_callout, cont, m_finalize, m_needs_event_loop, refs_needs_rearm,
-    needs_rearm_du, registered, canc_or_rel, dkq, retq_of in H.
-
-Ltac dgoal := repeat match goal with |- context [?v] => is_var v; match type of v with bool => destruct v end end.
-Ltac dhyp := repeat match goal with
-  | H : context [?v || _] |- _ => is_var v; destruct v
-  | H : context [_ || ?v] |- _ => is_var v; destruct v
-  | H : context [?v && _] |- _ => is_var v; destruct v
-  | H : context [_ && ?v] |- _ => is_var v; destruct v
-  end.
-Ltac fin := repeat split; intros; try discriminate; try congruence; try tauto; try (dgoal; dhyp; cbn in *; intuition (try discriminate; try congruence)).
-
-Lemma phase_Pinv k q o i : Pinv k (i_src i) (i_pc i) -> Pinv k (res_src (phase k q o i)) (res_pc (phase k q o i)).
-Proof.
-  intros HS. destruct (phase k q o i) eqn:H; cbn [res_src res_pc].
-  all: open_i i; destruct k as [kt kd kre]; destruct o as [o1 o2 o3 o4 o5 o6 o7 o8]; unf H; destruct pc.
-  all: split_ifs H.
-  all: try discriminate.
-  all: first [injection H as <- <- | injection H as <- <- <-]; unfold Pinv, Sinv, registered, custom in *; cbn in *; fin.
-Qed.
-
-(* structural facts about one phase: where the callouts can start, what they need, what never changes *)
-Lemma phase_facts k q o i :
-  let p := phase k q o i in let s := i_src i in let s' := res_src p in let a := res_acts p in
-  (h_ca s = false -> h_ca s' = false) /\
-  (canceled (fl s') = canceled (fl s) /\ released (fl s') = released (fl s) /\ (deleted (fl s) = true -> deleted (fl s') = true)) /\
-  (count AChBegin a = 0 \/
-   (count AChBegin a = 1 /\ h_ca s = true /\ h_ca s' = false /\ canceled (fl s) = true /\
-    ((i_pc i = OP4 /\ q = QTarget /\ deleted (i_dqf i) = true) \/ (i_pc i = OCD2 /\ deleted (fl s) = true)))) /\
-  (count AEhBegin a = 0 \/ (count AEhBegin a = 1 /\ i_pc i = OLatch /\ h_ev s = true)) /\
-  (res_pc p = OLatch -> i_pc i = OP1 /\ q = QTarget /\ canceled (fl s) = false /\ released (fl s) = false /\ pending s = true) /\
-  (deleted (fl s') = deleted (fl s) \/ (deleted (fl s) = false /\ existsb is_fin a = true)) /\
-  (deleted (res_dqf' p) = true -> deleted (i_dqf i) = true \/ deleted (fl s) = true) /\
-  (count AChDispose a = 0 \/ (count AChDispose a = 1 /\ h_ca s = true /\ h_ca s' = false /\ canceled (fl s) = false)).
-Proof.
-  cbv zeta. destruct (phase k q o i) eqn:H; cbn [res_src res_pc res_acts res_dqf'].
-  all: open_i i; destruct k as [kt kd kre]; destruct o as [o1 o2 o3 o4 o5 o6 o7 o8]; unf H; destruct pc.
-  all: split_ifs H.
-  all: try discriminate.
-  all: first [injection H as <- <- | injection H as <- <- <-]; unfold registered; cbn.
-  all: repeat split; intros; try discriminate; try congruence; try tauto; auto.
-  all: try (left; reflexivity).
-  all: try (right; repeat split; try reflexivity; try congruence; auto; fail).
-  all: try (right; repeat split; try reflexivity; try congruence; auto; left; repeat split; auto; fail).
-  all: try (right; repeat split; try reflexivity; try congruence; auto; right; repeat split; auto; fail).
-  all: try (left; congruence).
-  all: try (right; congruence).
-  all: try (destruct fd; cbn; auto; fail).
-Qed.
 
 (* convergence: when _dispatch_source_wakeup has nothing left to ask for on a cancelled source, the source is in the one
    final state, or it is parked waiting for the kernel's delete event (DSF_NEEDS_EVENT) *)
 Lemma wakeup_final k s :
   Sinv k s -> canceled (fl s) = true -> (forall o, wakeup_target k o false false s = RNone) ->
-  (deleted (fl s) = true /\ waiter (fl s) = false /\ needs_event (fl s) = false /\ h_ev s = false /\ h_ca s = false /\
-   h_reg s = false /\ kreg s = false /\ installed s = true /\ (custom k = false -> registered s = false)) \/
-  (needs_event (fl s) = true /\ deleted (fl s) = false).
+  final_src s \/ (needs_event (fl s) = true /\ deleted (fl s) = false).
 Proof.
   intros HS Hc Hw. specialize (Hw (mkO false false false false false false false false)).
   destruct s as [f inst w ar nd he hc hr pe kr]; destruct f as [fc fw fn fd fr]; destruct k as [kt kd kre].
   cbn in Hc. subst fc. unfold wakeup_target, canc_or_rel, refs_needs_rearm, needs_rearm_du, registered, dkq, retq_of in Hw.
-  unfold Sinv, registered, custom in HS. cbn in *.
+  unfold Sinv, final_src, registered in *. cbn in *.
   destruct inst, hr, nd, fd, fn, kt, kd, ar, he, hc; cbn in *; try discriminate; try (right; split; reflexivity);
     try (left; intuition congruence); try (right; intuition congruence).
+Qed.
+
+(* ------------------------------------------------------------------ small facts about the one-line transitions *)
+Ltac open_s s := destruct s as [f0' inst w ar nd he hc hr pe kr]; destruct f0' as [fc fw fn fd fr].
+Ltac sfin := unfold Sinv, registered in *; cbn in *; intuition (try discriminate; try congruence).
+
+Lemma flags_eqb_eq a b : flags_eqb a b = true -> a = b.
+Proof.
+  destruct a as [a1 a2 a3 a4 a5], b as [b1 b2 b3 b4 b5]. unfold flags_eqb. cbn.
+  destruct a1, b1, a2, b2, a3, b3, a4, b4, a5, b5; cbn; intros; try discriminate; reflexivity.
+Qed.
+
+Lemma Sinv_fl_keep k s f :
+  deleted f = deleted (fl s) -> (deleted f = true -> waiter f = false /\ needs_event f = false) -> Sinv k s -> Sinv k (with_fl s f).
+Proof. open_s s. destruct f as [c1 w1 n1 d1 r1]. cbn. intros E1 E2 H. subst d1. destruct fd; sfin. Qed.
+Lemma Sinv_pending k s p : Sinv k s -> Sinv k (with_pending s p).
+Proof. open_s s. intros. sfin. Qed.
+Lemma Sinv_finalize_fresh k s : Sinv k s -> installed s = false -> Sinv k (fst (finalize (with_installed s))).
+Proof. open_s s. intros H E. cbn in E. subst inst. destruct w, ar, nd, kr; sfin. Qed.
+Lemma Sinv_install k o s : Sinv k s -> installed s = false -> Sinv k (fst (install k o s)).
+Proof.
+  open_s s. destruct k as [kt kd kre]. intros H E. cbn in E. subst inst. unfold install. cbn.
+  destruct (c_reg_ok o || kt || kd && negb kre); cbn; destruct kt, w, ar, nd, kr, kd; cbn; sfin.
+Qed.
+Lemma Sinv_event k s a : Sinv k s -> kreg s = true -> Sinv k (with_du (with_pending s true) (du_wlh s) a (du_nd s) (kreg s)).
+Proof. open_s s. intros H E. cbn in E. subst kr. destruct w, ar, nd, a; sfin. Qed.
+Lemma Sinv_hangup k s : Sinv k s -> kreg s = true -> k_timer k = false ->
+  Sinv k (with_du (with_pending s true) (du_wlh s) false true (kreg s)).
+Proof. open_s s. intros H E Et. cbn in E. subst kr. destruct w, ar, nd; sfin. Qed.
+
+Lemma activate_src_cases k o s :
+  activate_src k o s = finalize (with_installed s) /\ canceled (fl s) = true \/
+  activate_src k o s = install k o s /\ installed s = false /\ canceled (fl s) = false \/
+  activate_src k o s = (s, []) /\ canceled (fl s) = false.
+Proof.
+  unfold activate_src. destruct (canceled (fl s)); [left; auto|]. right.
+  destruct ((k_direct k || k_timer k) && negb (installed s) && c_ovc o) eqn:E; [left | right; auto].
+  split; [reflexivity|]. split; [|reflexivity].
+  apply andb_true_iff in E as [E _]. apply andb_true_iff in E as [_ E]. apply negb_true_iff in E. exact E.
+Qed.
+
+Lemma install_acts k o s : let a := snd (install k o s) in
+  count AChBegin a = 0 /\ count AChDispose a = 0 /\ count AEhBegin a = 0 /\
+  (existsb is_fin_twice a = true -> deleted (fl s) = true).
+Proof. unfold install. destruct (c_reg_ok o || k_timer k || k_direct k && negb (k_rearm k)); cbn; repeat split; try discriminate.
+  destruct (deleted (fl s)); auto. Qed.
+Lemma install_flags k o s : let s' := fst (install k o s) in
+  canceled (fl s') = canceled (fl s) /\ released (fl s') = released (fl s) /\ h_ca s' = h_ca s /\
+  (deleted (fl s) = true -> deleted (fl s') = true) /\ installed s' = true /\
+  (waiter (fl s') = true -> waiter (fl s) = true) /\
+  ((waiter (fl s') = waiter (fl s) /\ deleted (fl s') = deleted (fl s)) \/ woke (snd (install k o s)) = true \/ waiter (fl s) = false).
+Proof.
+  unfold install. destruct (c_reg_ok o || k_timer k || k_direct k && negb (k_rearm k)); cbn; repeat split; auto; try discriminate.
+  destruct (waiter (fl s)); auto.
+Qed.
+Lemma finalize_flags s : let s' := fst (finalize s) in
+  canceled (fl s') = canceled (fl s) /\ released (fl s') = released (fl s) /\ h_ca s' = h_ca s /\ deleted (fl s') = true /\
+  installed s' = installed s /\ waiter (fl s') = false /\ woke (snd (finalize s)) = waiter (fl s).
+Proof. cbn. repeat split. destruct (waiter (fl s)); reflexivity. Qed.
+
+(* ------------------------------------------------------------------ the invariant *)
+Definition AInv (g : gst) : Prop :=
+  let s := g_s g in
+  Sinv (g_k g) s /\
+  (installed s = true -> activated g = true) /\
+  (owner g <> None -> activated g = true) /\
+  (owner g = None <-> o_pc g = OIdle) /\
+  (waiter (fl s) = true -> canceled (fl s) = true) /\
+  (past_install (o_pc g) = true -> installed s = true) /\
+  (in_cd (o_pc g) = true -> h_ca s = false /\ canceled (fl s) = true).
+
+(* cancel handler accounting: the slot is the token *)
+Definition BInv (g : gst) : Prop :=
+  let s := g_s g in let f := fl s in
+  (0 <= ch_count g <= 1) /\
+  (h_ca s = true -> ch_count g = 0 /\ ch_disposed g = false) /\
+  (h_ca s = false -> ch_set g = true -> ch_count g = 1 \/ ch_disposed g = true) /\
+  (ch_set g = false -> h_ca s = false /\ ch_count g = 0) /\
+  (1 <= ch_count g -> canceled f = true /\ deleted f = true) /\
+  (ch_disposed g = true -> released f = true).
+
+(* event handler invocations that start after CANCELED was set *)
+Definition CInv (g : gst) : Prop :=
+  let f := fl (g_s g) in
+  (0 <= late_starts g <= 1) /\
+  (1 <= late_starts g -> canceled f = true /\ origin g = Some CxThread) /\
+  (o_pc g = OLatch -> late_starts g = 0 /\ ch_count g = 0 /\ o_q g = QTarget /\ (canceled f = true -> origin g = Some CxThread)).
+
+(* the lock owner's copy of the flags is stale only in the monotone direction; DELETED is the owner's to set *)
+Definition DInv (g : gst) : Prop :=
+  let f := fl (g_s g) in
+  (canceled (o_dqf g) = true -> canceled f = true) /\ (deleted (o_dqf g) = true -> deleted f = true) /\
+  (released (o_dqf g) = true -> released f = true) /\
+  (o_pc g = OP3 -> deleted (o_dqf g) = deleted f).
+
+Definition GInv (g : gst) : Prop := AInv g /\ BInv g /\ CInv g /\ DInv g /\ caw_early g = false.
+
+Definition TInv (g : gst) (t : Z) : Prop :=
+  let s := g_s g in let f := fl s in
+  (cpc g t <> CIdle -> h_ca s = false /\ canceled f = true) /\
+  (forall o n, cpc g t = CDecide o n -> deleted o = true -> deleted f = true) /\
+  (forall d, cpc g t = CWTest d -> deleted d = true -> deleted f = true) /\
+  (forall d, cpc g t = CWFutex d -> waiter d = true /\ deleted d = false) /\
+  (cpc g t = CRet -> deleted f = true) /\
+  (slp g t = true -> cpc g t = CWSleep /\ waiter f = true /\ deleted f = false).
+
+Definition Inv (g : gst) : Prop := GInv g /\ forall t, TInv g t.
+
+Lemma Inv_init k ev ca rg : Inv (init_state k ev ca rg).
+Proof.
+  split.
+  - unfold GInv, AInv, BInv, CInv, DInv, Sinv, init_state, registered; cbn.
+    repeat split; intros; try discriminate; try lia; try tauto; auto; try (destruct ca; auto; discriminate).
+    all: try (match goal with H : _ \/ _ |- _ => destruct H; discriminate end).
+  - intros t. unfold TInv, init_state; cbn. repeat split; intros; try discriminate; try congruence.
+Qed.
+
+(* a thread that does not move: its obligations survive any step under which the shared part moves monotonically *)
+Lemma other_thread g g' u :
+  TInv g u -> cpc g' u = cpc g u ->
+  (h_ca (g_s g) = false -> h_ca (g_s g') = false) ->
+  (canceled (fl (g_s g)) = true -> canceled (fl (g_s g')) = true) ->
+  (deleted (fl (g_s g)) = true -> deleted (fl (g_s g')) = true) ->
+  (slp g' u = true -> slp g u = true /\ waiter (fl (g_s g')) = waiter (fl (g_s g)) /\ deleted (fl (g_s g')) = deleted (fl (g_s g))) ->
+  TInv g' u.
+Proof.
+  intros (T1 & T2 & T3 & T4 & T5 & T6) Ec Hh Hc Hd Hs. unfold TInv. rewrite Ec.
+  split; [|split; [|split; [|split; [|split]]]].
+  - intros H. destruct (T1 H). auto.
+  - intros o n H D. eauto.
+  - intros d H D. eauto.
+  - exact T4.
+  - intros H. auto.
+  - intros H. destruct (Hs H) as (S1 & S2 & S3). destruct (T6 S1) as (X1 & X2 & X3). rewrite S2, S3. auto.
+Qed.
+
+(* ------------------------------------------------------------------ shape of the owner's step *)
+Lemma gstep_phase g t o g' acts :
+  gstep g t (GPhase o) = Some (g', acts) ->
+  let p := phase (g_k g) (o_q g) o (mkI (g_s g) (o_pc g) (o_dqf g) (o_retq g) (o_avoid g)) in
+  owner g = Some t /\
+  acts = res_acts p /\ g_s g' = res_src p /\ o_pc g' = res_pc p /\ o_dqf g' = res_dqf' p /\ g_k g' = g_k g /\
+  activated g' = activated g /\ o_q g' = o_q g /\
+  owner g' = (match p with Cont _ _ => owner g | Ret _ _ _ => None end) /\
+  ch_count g' = ch_count g + count AChBegin acts /\ ch_disposed g' = (ch_disposed g || (0 <? count AChDispose acts)) /\
+  ch_set g' = ch_set g /\
+  late_starts g' = late_starts g + (if canceled (fl (g_s g)) then count AEhBegin acts else 0) /\
+  origin g' = origin g /\ caw_early g' = caw_early g /\
+  slp g' = (if woke acts then (fun _ => false) else slp g) /\
+  (forall u, u <> t -> cpc g' u = cpc g u) /\
+  (cpc g' t = cpc g t \/ (cpc g t = CDirect /\ cpc g' t = CWLoad)).
+Proof.
+  unfold gstep. intros H. destruct (is_owner g t) eqn:Eo; [|discriminate]. cbn [negb] in H.
+  assert (Ow : owner g = Some t).
+  { unfold is_owner in Eo. destruct (owner g) as [x|]; [|discriminate]. apply Z.eqb_eq in Eo. congruence. }
+  cbv zeta.
+  destruct (phase (g_k g) (o_q g) o {| i_src := g_s g; i_pc := o_pc g; i_dqf := o_dqf g; i_retq := o_retq g; i_avoid := o_avoid g |})
+    as [i' a'|s1 a1 r1] eqn:Hp.
+  - injection H as <- <-. cbn. repeat split; auto.
+  - injection H as <- <-.
+    destruct (cpc g t) eqn:Ec; cbn; repeat split; auto; try (intros u Hu; apply upd_other; exact Hu).
+    right. split; [reflexivity|]. apply upd_same.
+Qed.
+
+Lemma count_nonneg a l : 0 <= count a l.
+Proof. unfold count. lia. Qed.
+
+Section PhaseStep.
+  Variables (g g' : gst) (t : Z) (o : orc) (acts : list action).
+  Hypothesis HI : Inv g.
+  Hypothesis Hstep : gstep g t (GPhase o) = Some (g', acts).
+
+  Let i0 := mkI (g_s g) (o_pc g) (o_dqf g) (o_retq g) (o_avoid g).
+  Let p := phase (g_k g) (o_q g) o i0.
+
+  Lemma phase_G : GInv g'.
+  Proof.
+    destruct HI as [(HA & HB & HC & HD & HE) HT].
+    destruct HA as (HA1 & HA2 & HA3 & HA4 & HA5 & HA6 & HA7).
+    destruct HB as (HB1 & HB2 & HB3 & HB4 & HB5 & HB6).
+    destruct HC as (HC1 & HC2 & HC3).
+    destruct HD as (HD1 & HD2 & HD3 & HD4).
+    pose proof (gstep_phase g t o g' acts Hstep) as S. cbv zeta in S. fold i0 in S. fold p in S.
+    destruct S as (Ow & Ea & Es & Epc & Edqf & Ek & Eact & Eq & Eow & Ech & Edis & Eset & Elate & Eorg & Eearly & Eslp & Ecpo & Ecpt).
+    pose proof (phase_facts (g_k g) (o_q g) o i0) as F. cbv zeta in F. fold p in F. cbn [i_src i_pc i_dqf i0] in F.
+    destruct F as (F1 & (F2c & F2r & F2d) & F3 & F4 & F5 & F6 & F7 & F8).
+    pose proof (phase_facts2 (g_k g) (o_q g) o i0) as K. cbv zeta in K. fold p in K. cbn [i_src i_pc i_dqf i0] in K.
+    destruct K as (K1 & K2 & K3 & K4 & K5 & K6 & K7 & K8 & K9 & K10).
+    assert (PI : Pinv (g_k g) (res_src p) (res_pc p)).
+    { apply (phase_Pinv (g_k g) (o_q g) o i0). split; [exact HA1|exact HA6]. }
+    destruct PI as [PI1 PI2].
+    assert (Act : activated g = true) by (apply HA3; congruence).
+    rewrite <- Ea in F3, F4, F6, F8, K4, K5, K9, K10.
+    pose proof (count_nonneg AChBegin acts) as N1. pose proof (count_nonneg AChDispose acts) as N2.
+    pose proof (count_nonneg AEhBegin acts) as N3.
+    unfold GInv, AInv, BInv, CInv, DInv. rewrite Es, Epc, Edqf, Ek, Eact, Eq, Ech, Edis, Eset, Elate, Eorg, Eearly.
+    split; [|split; [|split; [|split]]].
+    - (* AInv *)
+      split; [exact PI1|]. split; [intros _; exact Act|]. split; [intros _; exact Act|].
+      split; [|split; [|split]].
+      + rewrite Eow. destruct p as [i' a'|s1 a1 r1] eqn:Ep; cbn [res_pc].
+        * split; [intros X; congruence | intros X; contradiction (K7 X)].
+        * split; reflexivity.
+      + intros W. rewrite F2c. apply HA5. apply K6. exact W.
+      + exact PI2.
+      + intros C. destruct (HA7 (K8 C)) as [X1 X2]. split; [apply F1; exact X1 | rewrite F2c; exact X2].
+    - (* BInv *)
+      split; [|split; [|split; [|split; [|split]]]].
+      + destruct F3 as [Z0|(Z1 & Hh & _)]; [lia|]. destruct (HB2 Hh) as [X _]. lia.
+      + intros Hh'. assert (Hh : h_ca (g_s g) = true).
+        { destruct (h_ca (g_s g)) eqn:E; [reflexivity|]. rewrite (F1 eq_refl) in Hh'. discriminate. }
+        destruct (HB2 Hh) as [X1 X2].
+        assert (C0 : count AChBegin acts = 0) by (destruct F3 as [Z0|(_ & _ & Hx & _)]; [exact Z0 | congruence]).
+        assert (D0 : count AChDispose acts = 0) by (destruct F8 as [Z0|(_ & _ & Hx & _)]; [exact Z0 | congruence]).
+        rewrite C0, D0, X2. split; [lia | reflexivity].
+      + intros Hh' Hs. destruct (h_ca (g_s g)) eqn:Hh.
+        * pose proof (K10 eq_refl Hh') as Sum. destruct (HB2 eq_refl) as [X1 X2].
+          destruct F3 as [Z0|(Z1 & _)].
+          -- right. assert (count AChDispose acts = 1) by lia. rewrite H. apply orb_true_r.
+          -- left. lia.
+        * destruct (HB3 eq_refl Hs) as [X|X].
+          -- left. destruct F3 as [Z0|(_ & Hx & _)]; [lia | congruence].
+          -- right. rewrite X. reflexivity.
+      + intros Hs. destruct (HB4 Hs) as [X1 X2]. split; [apply F1; exact X1|].
+        destruct F3 as [Z0|(_ & Hx & _)]; [lia | congruence].
+      + intros Hc. destruct F3 as [Z0|(Z1 & _ & _ & Hcan & Hwhere)].
+        * assert (1 <= ch_count g) by lia. destruct (HB5 H) as [X1 X2]. split; [rewrite F2c; exact X1 | apply F2d; exact X2].
+        * split; [rewrite F2c; exact Hcan|]. apply F2d.
+          destruct Hwhere as [(_ & _ & Dd)|(_ & Dd)]; [apply HD2; exact Dd | exact Dd].
+      + intros Hd. rewrite F2r. apply orb_true_iff in Hd as [Hd|Hd]; [apply HB6; exact Hd|].
+        apply Z.ltb_lt in Hd. destruct F8 as [Z0|(Z1 & _ & _ & Hnc)]; [lia|].
+        destruct (K9 Z1) as [(_ & Hcr)|Hcd].
+        * unfold canc_or_rel in Hcr. apply orb_true_iff in Hcr as [Hcr|Hcr]; [rewrite (HD1 Hcr) in Hnc; discriminate | apply HD3; exact Hcr].
+        * assert (X : in_cd (o_pc g) = true) by (rewrite Hcd; reflexivity). destruct (HA7 X) as [_ X2]. congruence.
+    - (* CInv *)
+      split; [|split].
+      + destruct (canceled (fl (g_s g))); [|lia].
+        destruct F4 as [Z0|(Z1 & Hpc & _)]; [lia|]. destruct (HC3 Hpc) as (X & _). lia.
+      + intros Hl. rewrite F2c. destruct (canceled (fl (g_s g))) eqn:Ec.
+        * destruct F4 as [Z0|(Z1 & Hpc & _)].
+          -- assert (1 <= late_starts g) by lia. destruct (HC2 H) as [_ X]. split; [reflexivity | exact X].
+          -- destruct (HC3 Hpc) as (_ & _ & _ & X). split; [reflexivity | apply X; reflexivity].
+        * assert (1 <= late_starts g) by lia. destruct (HC2 H) as [X _]. discriminate.
+      + intros Hpc'. destruct (F5 Hpc') as (P1 & Q1 & Cn & _).
+        assert (L0 : late_starts g = 0).
+        { destruct (Z.eq_dec (late_starts g) 0) as [|Ne]; [assumption|]. assert (1 <= late_starts g) by lia.
+          destruct (HC2 H) as [X _]. congruence. }
+        assert (C0 : ch_count g = 0).
+        { destruct (Z.eq_dec (ch_count g) 0) as [|Ne]; [assumption|]. assert (1 <= ch_count g) by lia.
+          destruct (HB5 H) as [X _]. congruence. }
+        rewrite Cn. split; [lia|]. split.
+        * destruct F3 as [Z0|(_ & _ & _ & Hx & _)]; [lia | congruence].
+        * split; [exact Q1|]. rewrite F2c, Cn. intros X; discriminate.
+    - (* DInv *)
+      split; [|split; [|split]].
+      + intros X. rewrite F2c. destruct (K1 X) as [Y|Y]; [apply HD1; exact Y | exact Y].
+      + intros X. apply F2d. destruct (F7 X) as [Y|Y]; [apply HD2; exact Y | exact Y].
+      + intros X. rewrite F2r. destruct (K2 X) as [Y|Y]; [apply HD3; exact Y | exact Y].
+      + exact K3.
+    - exact HE.
+  Qed.
+
+  Lemma phase_T : forall u, TInv g' u.
+  Proof.
+    destruct HI as [(HA & HB & HC & HD & HE) HT].
+    pose proof (gstep_phase g t o g' acts Hstep) as S. cbv zeta in S. fold i0 in S. fold p in S.
+    destruct S as (Ow & Ea & Es & Epc & Edqf & Ek & Eact & Eq & Eow & Ech & Edis & Eset & Elate & Eorg & Eearly & Eslp & Ecpo & Ecpt).
+    pose proof (phase_facts (g_k g) (o_q g) o i0) as F. cbv zeta in F. fold p in F. cbn [i_src i_pc i_dqf i0] in F.
+    destruct F as (F1 & (F2c & F2r & F2d) & _).
+    pose proof (phase_facts2 (g_k g) (o_q g) o i0) as K. cbv zeta in K. fold p in K. cbn [i_src i_pc i_dqf i0] in K.
+    destruct K as (_ & _ & _ & _ & K5 & _).
+    rewrite <- Ea in K5. rewrite <- Es in F1, F2c, F2d, K5.
+    assert (Sl : forall u, slp g' u = true -> slp g u = true /\ waiter (fl (g_s g')) = waiter (fl (g_s g)) /\
+                                            deleted (fl (g_s g')) = deleted (fl (g_s g))).
+    { intros u Hu. rewrite Eslp in Hu. destruct (woke acts) eqn:Ew; [discriminate|]. split; [exact Hu|].
+      destruct K5 as [[X1 X2]|[X|X]]; [auto | discriminate |].
+      destruct (HT u) as (_ & _ & _ & _ & _ & T6). destruct (T6 Hu) as (_ & Y & _). congruence. }
+    intros u.
+    assert (Same : cpc g' u = cpc g u -> TInv g' u).
+    { intros Ec. apply (other_thread g g' u (HT u) Ec); auto. intros X. rewrite F2c. exact X. }
+    destruct (Z.eq_dec u t) as [->|Ne]; [|apply Same, Ecpo, Ne].
+    destruct Ecpt as [Ec|[Ec1 Ec2]]; [apply Same, Ec|].
+    destruct (HT t) as (T1 & _ & _ & _ & _ & T6).
+    unfold TInv. rewrite Ec2. split; [|split; [|split; [|split; [|split]]]]; try (intros; discriminate).
+    - intros _. assert (X : cpc g t <> CIdle) by (rewrite Ec1; discriminate). destruct (T1 X) as [Y1 Y2].
+      split; [apply F1; exact Y1 | rewrite F2c; exact Y2].
+    - intros Hs. destruct (Sl t Hs) as [X _]. destruct (T6 X) as [Y _]. congruence.
+  Qed.
+End PhaseStep.
+
+(* ------------------------------------------------------------------ frames *)
+Lemma GInv_cpc g t p : GInv (set_cpc g t p) <-> GInv g.
+Proof. unfold GInv, AInv, BInv, CInv, DInv. cbn. tauto. Qed.
+Lemma GInv_slp g t b : GInv (set_slp g t b) <-> GInv g.
+Proof. unfold GInv, AInv, BInv, CInv, DInv. cbn. tauto. Qed.
+
+Lemma TInv_frame g g' u :
+  g_s g' = g_s g -> cpc g' u = cpc g u -> slp g' u = slp g u -> TInv g u -> TInv g' u.
+Proof. unfold TInv. intros -> -> ->. tauto. Qed.
+
+Lemma if_same (b : bool) (x : Z) : (if b then x else x) = x.
+Proof. destruct b; reflexivity. Qed.
+
+(* a step that only rewrites the source (no callout, no finalize), keeps the cancel-handler slot and DELETED, and may set
+   the ghost origin to `og` *)
+Lemma G_src_nil g s1 og :
+  GInv g ->
+  Sinv (g_k g) s1 -> installed s1 = installed (g_s g) -> h_ca s1 = h_ca (g_s g) ->
+  deleted (fl s1) = deleted (fl (g_s g)) ->
+  (canceled (fl (g_s g)) = true -> canceled (fl s1) = true) ->
+  (released (fl (g_s g)) = true -> released (fl s1) = true) ->
+  (waiter (fl s1) = true -> canceled (fl s1) = true) ->
+  (1 <= late_starts g -> og = Some CxThread) ->
+  (o_pc g = OLatch -> canceled (fl s1) = true -> og = Some CxThread) ->
+  GInv (set_origin (set_src g s1 []) og).
+Proof.
+  intros (HA & HB & HC & HD & HE) S1 Ei Eh Ed Mc Mr Wc R1 R2.
+  destruct HA as (HA1 & HA2 & HA3 & HA4 & HA5 & HA6 & HA7).
+  destruct HB as (HB1 & HB2 & HB3 & HB4 & HB5 & HB6).
+  destruct HC as (HC1 & HC2 & HC3).
+  destruct HD as (HD1 & HD2 & HD3 & HD4).
+  unfold GInv, AInv, BInv, CInv, DInv. cbn. rewrite ?Z.add_0_r, ?orb_false_r, ?if_same, ?Z.add_0_r.
+  rewrite Ei, Eh, Ed.
+  split; [|split; [|split; [|split]]].
+  - split; [exact S1|]. split; [exact HA2|]. split; [exact HA3|]. split; [exact HA4|]. split; [exact Wc|]. split; [exact HA6|].
+    intros X. destruct (HA7 X). auto.
+  - split; [exact HB1|]. split; [exact HB2|]. split; [exact HB3|]. split; [exact HB4|]. split.
+    + intros X. destruct (HB5 X). auto.
+    + intros X. auto.
+  - split; [exact HC1|]. split.
+    + intros X. destruct (HC2 X). auto.
+    + intros X. destruct (HC3 X) as (Y1 & Y2 & Y3 & Y4). auto.
+  - split; [auto|]. split; [exact HD2|]. split; [auto|]. exact HD4.
+  - exact HE.
+Qed.
+
+Lemma T_src_nil g s1 og u :
+  TInv g u ->
+  h_ca s1 = h_ca (g_s g) -> deleted (fl s1) = deleted (fl (g_s g)) ->
+  (canceled (fl (g_s g)) = true -> canceled (fl s1) = true) ->
+  (waiter (fl (g_s g)) = true -> waiter (fl s1) = true) ->
+  TInv (set_origin (set_src g s1 []) og) u.
+Proof.
+  intros T Eh Ed Mc Mw. apply (other_thread g _ u T); cbn; auto.
+  - rewrite Eh. auto.
+  - rewrite Ed. auto.
+  - intros Hs. destruct T as (_ & _ & _ & _ & _ & T6). destruct (T6 Hs) as (_ & W & _).
+    split; [exact Hs|]. split; [rewrite W; apply Mw; exact W | exact Ed].
+Qed.
+
+Lemma set_origin_same g : set_origin g (origin g) = g.
+Proof. destruct g; reflexivity. Qed.
+
+(* _dispatch_source_activate on a source that was never installed *)
+Lemma activate_src_eff k o s :
+  Sinv k s -> installed s = false ->
+  let s1 := fst (activate_src k o s) in let a := snd (activate_src k o s) in
+  Sinv k s1 /\ h_ca s1 = h_ca s /\ canceled (fl s1) = canceled (fl s) /\ released (fl s1) = released (fl s) /\
+  (deleted (fl s) = true -> deleted (fl s1) = true) /\
+  count AChBegin a = 0 /\ count AChDispose a = 0 /\ count AEhBegin a = 0 /\
+  (fl s1 = fl s /\ woke a = false \/ (woke a = waiter (fl s) /\ waiter (fl s1) = false /\ deleted (fl s1) = true)) /\
+  (canceled (fl s) = true -> deleted (fl s1) = true) /\
+  (existsb is_fin_twice a = true -> deleted (fl s) = true).
+Proof.
+  intros HS Hi. cbv zeta.
+  destruct (activate_src_cases k o s) as [[E C]|[[E [I C]]|[E C]]]; rewrite E.
+  - split; [apply Sinv_finalize_fresh; assumption|]. cbn. repeat split; auto; try discriminate.
+    + right. repeat split. destruct (waiter (fl s)); reflexivity.
+    + destruct (deleted (fl s)); auto.
+  - split; [apply Sinv_install; assumption|].
+    unfold install. destruct (c_reg_ok o || k_timer k || k_direct k && negb (k_rearm k)); cbn; repeat split; auto; try discriminate.
+    all: try (rewrite C; discriminate).
+    all: try (right; repeat split; destruct (waiter (fl s)); reflexivity).
+    all: try (destruct (deleted (fl s)); auto; fail).
+  - split; [exact HS|]. cbn. repeat split; auto; try discriminate.
+    all: try (rewrite C; discriminate).
+Qed.
+
+Lemma G_activate g o :
+  GInv g -> activated g = false ->
+  GInv (set_activated (set_src g (fst (activate_src (g_k g) o (g_s g))) (snd (activate_src (g_k g) o (g_s g))))).
+Proof.
+  intros (HA & HB & HC & HD & HE) Na.
+  destruct HA as (HA1 & HA2 & HA3 & HA4 & HA5 & HA6 & HA7).
+  destruct HB as (HB1 & HB2 & HB3 & HB4 & HB5 & HB6).
+  destruct HC as (HC1 & HC2 & HC3).
+  destruct HD as (HD1 & HD2 & HD3 & HD4).
+  assert (Ni : installed (g_s g) = false).
+  { destruct (installed (g_s g)) eqn:E; [|reflexivity]. rewrite (HA2 eq_refl) in Na. discriminate. }
+  assert (No : owner g = None).
+  { destruct (owner g) eqn:E; [|reflexivity]. assert (X : Some z <> None) by discriminate.
+    rewrite (HA3 X) in Na. discriminate. }
+  assert (Pc : o_pc g = OIdle) by (apply HA4; exact No).
+  pose proof (activate_src_eff (g_k g) o (g_s g) HA1 Ni) as E. cbv zeta in E.
+  set (s1 := fst (activate_src (g_k g) o (g_s g))) in *. set (a := snd (activate_src (g_k g) o (g_s g))) in *.
+  destruct E as (E1 & E2 & E3 & E4 & E5 & E6 & E7 & E8 & E9 & E10 & E11).
+  unfold GInv, AInv, BInv, CInv, DInv. cbn. rewrite E6, E7, E8, ?Z.add_0_r, ?orb_false_r, ?if_same, ?Z.add_0_r, E2, E3, E4, Pc.
+  split; [|split; [|split; [|split]]].
+  - split; [exact E1|]. split; [reflexivity|]. split; [reflexivity|]. split; [split; [reflexivity | intros _; exact No]|]. split.
+    + intros W. destruct E9 as [[X _]|(_ & X & _)]; [rewrite X in W; auto | congruence].
+    + split; intros X; discriminate.
+  - split; [exact HB1|]. split; [exact HB2|]. split; [exact HB3|]. split; [exact HB4|]. split.
+    + intros X. destruct (HB5 X). auto.
+    + exact HB6.
+  - split; [exact HC1|]. split; [exact HC2|]. intros X; discriminate.
+  - split; [exact HD1|]. split; [auto|]. split; [exact HD3|]. intros X; discriminate.
+  - exact HE.
+Qed.
+
+Lemma T_activate g o u :
+  GInv g -> TInv g u -> activated g = false ->
+  TInv (set_activated (set_src g (fst (activate_src (g_k g) o (g_s g))) (snd (activate_src (g_k g) o (g_s g))))) u.
+Proof.
+  intros (HA & _) T Na. destruct HA as (HA1 & HA2 & _).
+  assert (Ni : installed (g_s g) = false).
+  { destruct (installed (g_s g)) eqn:E; [|reflexivity]. rewrite (HA2 eq_refl) in Na. discriminate. }
+  pose proof (activate_src_eff (g_k g) o (g_s g) HA1 Ni) as E. cbv zeta in E.
+  set (s1 := fst (activate_src (g_k g) o (g_s g))) in *. set (a := snd (activate_src (g_k g) o (g_s g))) in *.
+  destruct E as (E1 & E2 & E3 & E4 & E5 & E6 & E7 & E8 & E9 & E10 & E11).
+  apply (other_thread g _ u T); cbn; auto.
+  - rewrite E2. auto.
+  - rewrite E3. auto.
+  - intros Hs. destruct E9 as [[X Y]|(X & _ & _)].
+    + rewrite Y in Hs. rewrite X. auto.
+    + destruct T as (_ & _ & _ & _ & _ & T6). destruct (woke a) eqn:W; [discriminate|].
+      destruct (T6 Hs) as (_ & Z1 & _). congruence.
+Qed.
+
+(* ------------------------------------------------------------------ the other steps, one lemma each *)
+Lemma G_src_nil' g s1 :
+  GInv g ->
+  Sinv (g_k g) s1 -> installed s1 = installed (g_s g) -> h_ca s1 = h_ca (g_s g) ->
+  deleted (fl s1) = deleted (fl (g_s g)) -> canceled (fl s1) = canceled (fl (g_s g)) ->
+  (released (fl (g_s g)) = true -> released (fl s1) = true) ->
+  waiter (fl s1) = waiter (fl (g_s g)) ->
+  GInv (set_src g s1 []).
+Proof.
+  intros HG S1 Ei Eh Ed Ec Mr Ew.
+  rewrite <- (set_origin_same (set_src g s1 [])). change (origin (set_src g s1 [])) with (origin g).
+  pose proof HG as (HA & HB & HC & HD & HE).
+  apply G_src_nil; auto.
+  - rewrite Ec. auto.
+  - rewrite Ew, Ec. apply HA.
+  - intros X. destruct HC as (_ & HC2 & _). destruct (HC2 X). assumption.
+  - rewrite Ec. intros X Y. destruct HC as (_ & _ & HC3). destruct (HC3 X) as (_ & _ & _ & Z1). auto.
+Qed.
+Lemma T_src_nil' g s1 u :
+  TInv g u -> h_ca s1 = h_ca (g_s g) -> deleted (fl s1) = deleted (fl (g_s g)) ->
+  canceled (fl s1) = canceled (fl (g_s g)) -> waiter (fl s1) = waiter (fl (g_s g)) -> TInv (set_src g s1 []) u.
+Proof.
+  intros T Eh Ed Ec Ew. rewrite <- (set_origin_same (set_src g s1 [])). change (origin (set_src g s1 [])) with (origin g).
+  apply T_src_nil; auto; [rewrite Ec | rewrite Ew]; auto.
+Qed.
+
+Lemma Sinv_set_canceled k s : Sinv k s -> Sinv k (with_fl s (set_canceled (fl s))).
+Proof. open_s s. intros. destruct fd; sfin. Qed.
+Lemma Sinv_set_released k s : Sinv k s -> Sinv k (with_fl s (set_released (fl s))).
+Proof. open_s s. intros. destruct fd; sfin. Qed.
+
+Lemma step_activate g t o g' acts : Inv g -> gstep g t (GActivate o) = Some (g', acts) -> Inv g'.
+Proof.
+  intros [HG HT] H. unfold gstep in H.
+  destruct (activated g || released (fl (g_s g))) eqn:E; [discriminate|]. apply orb_false_iff in E as [Na Nr].
+  destruct (activate_src (g_k g) o (g_s g)) as [s1 a] eqn:Ea. injection H as <- <-.
+  change s1 with (fst (s1, a)). change a with (snd (s1, a)) at 2. rewrite <- Ea.
+  split; [apply G_activate; assumption | intros u; apply T_activate; auto].
+Qed.
+
+Lemma step_cancel g t cx g' acts : Inv g -> gstep g t (GCancel cx) = Some (g', acts) -> Inv g'.
+Proof.
+  intros [HG HT] H. unfold gstep in H. destruct (released (fl (g_s g))) eqn:Nr; [discriminate|].
+  match type of H with (if negb ?al then _ else _) = _ => destruct al eqn:Al end; [|discriminate].
+  cbn [negb] in H. injection H as <- <-.
+  pose proof HG as ((HA1 & _ & _ & HA4 & _) & _ & (_ & HC2 & HC3) & _).
+  split.
+  - apply G_src_nil.
+    + exact HG.
+    + apply Sinv_set_canceled. exact HA1.
+    + reflexivity.
+    + reflexivity.
+    + reflexivity.
+    + intros _. reflexivity.
+    + cbn. auto.
+    + intros _. reflexivity.
+    + intros X. destruct (HC2 X) as [Y1 Y2]. rewrite Y1. exact Y2.
+    + intros Pc _. destruct (HC3 Pc) as (_ & _ & Q & Org). destruct (canceled (fl (g_s g))); [auto|].
+      destruct cx; [reflexivity| |].
+      * rewrite Pc in Al. rewrite andb_false_r in Al. discriminate.
+      * destruct (owner g) eqn:Ow.
+        -- rewrite Q in Al. discriminate.
+        -- destruct HA4 as [X _]. rewrite (X eq_refl) in Pc. discriminate.
+  - intros u. apply T_src_nil; cbn; auto.
+Qed.
+
+Lemma step_release g t g' acts : Inv g -> gstep g t GRelease = Some (g', acts) -> Inv g'.
+Proof.
+  intros [HG HT] H. unfold gstep in H. destruct (released (fl (g_s g))) eqn:Nr; [discriminate|]. injection H as <- <-.
+  pose proof HG as ((HA1 & _) & _).
+  split; [apply G_src_nil'; cbn; auto; apply Sinv_set_released; exact HA1 | intros u; apply T_src_nil'; cbn; auto].
+Qed.
+
+Lemma step_merge g t g' acts : Inv g -> gstep g t GMergeData = Some (g', acts) -> Inv g'.
+Proof.
+  intros [HG HT] H. unfold gstep in H. destruct (released (fl (g_s g))) eqn:Nr; [discriminate|]. injection H as <- <-.
+  pose proof HG as ((HA1 & _) & _).
+  split; [apply G_src_nil'; cbn; auto; apply Sinv_pending; exact HA1 | intros u; apply T_src_nil'; cbn; auto].
+Qed.
+
+Lemma step_event g t st g' acts : Inv g -> gstep g t (GEvent st) = Some (g', acts) -> Inv g'.
+Proof.
+  intros [HG HT] H. unfold gstep in H. destruct (kreg (g_s g) && du_armed (g_s g)) eqn:E; [|discriminate].
+  apply andb_true_iff in E as [Kr Ar].
+  pose proof HG as ((HA1 & _) & _). pose proof HA1 as (_ & S2 & _).
+  match type of H with (if negb (registered ?s1) && _ then _ else _) = _ => assert (R : registered s1 = true) end.
+  { unfold registered. cbn. rewrite (S2 Kr). reflexivity. }
+  rewrite R in H. cbn [negb andb] in H. injection H as <- <-.
+  split; [apply G_src_nil'; cbn; auto; apply Sinv_event; assumption | intros u; apply T_src_nil'; cbn; auto].
+Qed.
+
+Lemma step_hangup g t g' acts : Inv g -> gstep g t GHangup = Some (g', acts) -> Inv g'.
+Proof.
+  intros [HG HT] H. unfold gstep in H.
+  destruct (kreg (g_s g) && registered (g_s g) && negb (k_timer (g_k g))) eqn:E; [|discriminate].
+  apply andb_true_iff in E as [E Kt]. apply andb_true_iff in E as [Kr _]. apply negb_true_iff in Kt. injection H as <- <-.
+  pose proof HG as ((HA1 & _) & _).
+  split; [apply G_src_nil'; cbn; auto; apply Sinv_hangup; assumption | intros u; apply T_src_nil'; cbn; auto].
+Qed.
+
+Lemma G_take_lock g t q pc :
+  GInv g -> owner g = None -> activated g = true -> past_install pc = false -> pc <> OIdle -> pc <> OLatch -> pc <> OP3 ->
+  (in_cd pc = true -> h_ca (g_s g) = false /\ canceled (fl (g_s g)) = true) ->
+  GInv (set_owner g (Some t) q pc f0 RNone false).
+Proof.
+  intros (HA & HB & HC & HD & HE) No Act Pp N1 N2 N3 Cd.
+  destruct HA as (HA1 & HA2 & HA3 & HA4 & HA5 & HA6 & HA7).
+  destruct HC as (HC1 & HC2 & HC3).
+  unfold GInv, AInv, BInv, CInv, DInv. cbn.
+  split; [|split; [|split; [|split]]].
+  - split; [exact HA1|]. split; [exact HA2|]. split; [intros _; exact Act|]. split; [split; [discriminate | intros X; contradiction]|].
+    split; [exact HA5|]. split; [rewrite Pp; discriminate | exact Cd].
+  - exact HB.
+  - split; [exact HC1|]. split; [exact HC2|]. intros X. contradiction.
+  - repeat split; intros X; try discriminate. contradiction.
+  - exact HE.
+Qed.
+
+Lemma step_invoke g t q g' acts : Inv g -> gstep g t (GInvoke q) = Some (g', acts) -> Inv g'.
+Proof.
+  intros [HG HT] H. unfold gstep in H. destruct (owner g) eqn:Ow; [discriminate|].
+  destruct (activated g) eqn:Act; [|discriminate]. injection H as <- <-.
+  split.
+  - apply G_take_lock; auto; try discriminate.
+  - intros u. apply (TInv_frame g _ u); auto.
+Qed.
+
+Lemma step_futex_ret g t g' acts : Inv g -> gstep g t GFutexRet = Some (g', acts) -> Inv g'.
+Proof.
+  intros [HG HT] H. unfold gstep in H. destruct (cpc g t) eqn:Ec; try discriminate. injection H as <- <-.
+  split; [apply GInv_cpc, GInv_slp; exact HG|].
+  intros u. destruct (Z.eq_dec u t) as [->|Ne].
+  - destruct (HT t) as (T1 & _). unfold TInv. cbn. rewrite !upd_same.
+    split; [intros _; apply T1; rewrite Ec; discriminate|]. repeat split; intros; discriminate.
+  - apply (TInv_frame g _ u); cbn; auto; apply upd_other; exact Ne.
+Qed.
+
+(* ------------------------------------------------------------------ dispatch_source_cancel_and_wait *)
+Lemma caw_loop_some k f f' : m_caw_loop k f = Some f' ->
+  waiter f = false /\ canceled f' = true /\ deleted f' = deleted f /\ released f' = released f /\ needs_event f' = needs_event f /\
+  (deleted f = true -> waiter f' = false).
+Proof.
+  unfold m_caw_loop. destruct (waiter f) eqn:W; [discriminate|]. intros H. injection H as <-. cbn.
+  repeat split. intros D. rewrite D. reflexivity.
+Qed.
+Lemma caw_loop_none k f : m_caw_loop k f = None -> waiter f = true.
+Proof. unfold m_caw_loop. destruct (waiter f); [reflexivity | discriminate]. Qed.
+
+Lemma Sinv_caw k s f' : Sinv k s -> m_caw_loop k (fl s) = Some f' -> Sinv k (with_fl s f').
+Proof.
+  intros HS H. destruct (caw_loop_some _ _ _ H) as (_ & _ & D & _ & N & W).
+  apply Sinv_fl_keep; [exact D | | exact HS].
+  intros X. rewrite D in X. split; [apply W; exact X|]. rewrite N. apply HS. exact X.
+Qed.
+
+Lemma T_moved_simple g g' t p :
+  g_s g' = g_s g -> cpc g' t = p -> slp g' t = slp g t -> TInv g t -> cpc g t <> CWSleep -> cpc g t <> CIdle ->
+  (forall o n, p = CDecide o n -> deleted o = true -> deleted (fl (g_s g)) = true) ->
+  (forall d, p = CWTest d -> deleted d = true -> deleted (fl (g_s g)) = true) ->
+  (forall d, p = CWFutex d -> waiter d = true /\ deleted d = false) ->
+  (p = CRet -> deleted (fl (g_s g)) = true) ->
+  TInv g' t.
+Proof.
+  intros Es Ec El (T1 & _ & _ & _ & _ & T6) Ns Ni P2 P3 P4 P5. unfold TInv. rewrite Es, Ec, El.
+  split; [intros _; apply T1; exact Ni|]. split; [exact P2|]. split; [exact P3|]. split; [exact P4|]. split; [exact P5|].
+  intros X. destruct (T6 X) as [Y _]. contradiction.
+Qed.
+
+Lemma GInv_origin_cpc g t p og : GInv (set_origin (set_cpc g t p) og) <-> GInv (set_origin g og).
+Proof. unfold GInv, AInv, BInv, CInv, DInv. cbn. tauto. Qed.
+
+Lemma step_caw_enter g t g' acts : Inv g -> gstep g t GCawEnter = Some (g', acts) -> Inv g'.
+Proof.
+  intros [HG HT] H. unfold gstep in H. destruct (cpc g t) eqn:Ec; try discriminate.
+  destruct (h_ca (g_s g) || released (fl (g_s g)) || is_owner g t) eqn:E; [discriminate|].
+  apply orb_false_iff in E as [E _]. apply orb_false_iff in E as [Hca Nr].
+  pose proof HG as ((HA1 & _ & _ & _ & HA5 & _) & _ & (_ & HC2 & HC3) & _).
+  destruct (m_caw_loop (g_k g) (fl (g_s g))) as [f'|] eqn:L; injection H as <- <-.
+  - destruct (caw_loop_some _ _ _ L) as (W0 & C1 & D1 & R1 & N1 & W1).
+    split.
+    + apply GInv_origin_cpc. apply G_src_nil.
+      * exact HG.
+      * apply Sinv_caw; assumption.
+      * reflexivity.
+      * reflexivity.
+      * exact D1.
+      * intros _. exact C1.
+      * cbn. rewrite R1. auto.
+      * intros _. exact C1.
+      * intros X. destruct (HC2 X) as [Y1 Y2]. rewrite Y1. exact Y2.
+      * intros Pc _. destruct (HC3 Pc) as (_ & _ & _ & Org). destruct (canceled (fl (g_s g))); auto.
+    + intros u. destruct (Z.eq_dec u t) as [->|Ne].
+      * destruct (HT t) as (_ & _ & _ & _ & _ & T6).
+        unfold TInv. cbn. rewrite upd_same.
+        split; [intros _; split; [exact Hca | exact C1]|].
+        split; [intros o n X D; injection X as <- <-; rewrite D1; exact D|].
+        split; [intros d X; discriminate|]. split; [intros d X; discriminate|]. split; [intros X; discriminate|].
+        intros X. destruct (T6 X) as [Y _]. rewrite Ec in Y. discriminate.
+      * assert (T : TInv (set_origin (set_src g (with_fl (g_s g) f') []) (if canceled (fl (g_s g)) then origin g else Some CxThread)) u).
+        { apply T_src_nil; [exact (HT u) | reflexivity | exact D1 | intros _; exact C1 | rewrite W0; discriminate]. }
+        revert T. apply TInv_frame; cbn; auto. apply upd_other. exact Ne.
+  - pose proof (caw_loop_none _ _ L) as W.
+    split; [apply GInv_cpc; exact HG|].
+    intros u. destruct (Z.eq_dec u t) as [->|Ne].
+    + destruct (HT t) as (_ & _ & _ & _ & _ & T6).
+      unfold TInv. cbn. rewrite upd_same.
+      split; [intros _; split; [exact Hca | apply HA5; exact W]|].
+      split; [intros o n X D; injection X as <- _; exact D|].
+      split; [intros d X; discriminate|]. split; [intros d X; discriminate|]. split; [intros X; discriminate|].
+      intros X. destruct (T6 X) as [Y _]. rewrite Ec in Y. discriminate.
+    + apply (TInv_frame g _ u); cbn; auto. apply upd_other. exact Ne.
+Qed.
+
+Lemma Inv_set_cpc g t p :
+  Inv g -> cpc g t <> CWSleep -> cpc g t <> CIdle ->
+  (forall o n, p = CDecide o n -> deleted o = true -> deleted (fl (g_s g)) = true) ->
+  (forall d, p = CWTest d -> deleted d = true -> deleted (fl (g_s g)) = true) ->
+  (forall d, p = CWFutex d -> waiter d = true /\ deleted d = false) ->
+  (p = CRet -> deleted (fl (g_s g)) = true) ->
+  Inv (set_cpc g t p).
+Proof.
+  intros [HG HT] N1 N2 P2 P3 P4 P5. split; [apply GInv_cpc; exact HG|].
+  intros u. destruct (Z.eq_dec u t) as [->|Ne].
+  - apply (T_moved_simple g _ t p); auto; cbn; auto. apply upd_same.
+  - apply (TInv_frame g _ u); cbn; auto. apply upd_other. exact Ne.
+Qed.
+
+Lemma GInv_early g : GInv g -> GInv (set_caw_early g false).
+Proof. unfold GInv, AInv, BInv, CInv, DInv. cbn. tauto. Qed.
+
+Lemma G_set_waiter g :
+  GInv g -> deleted (fl (g_s g)) = false -> canceled (fl (g_s g)) = true ->
+  GInv (set_src g (with_fl (g_s g) (set_waiter (fl (g_s g)))) []).
+Proof.
+  intros HG Nd Cc. pose proof HG as ((HA1 & _) & _ & (_ & HC2 & HC3) & _).
+  rewrite <- (set_origin_same (set_src g _ [])). change (origin (set_src g _ [])) with (origin g).
+  apply G_src_nil.
+  - exact HG.
+  - apply Sinv_fl_keep; [reflexivity | | exact HA1]. cbn. rewrite Nd. discriminate.
+  - reflexivity.
+  - reflexivity.
+  - reflexivity.
+  - cbn. auto.
+  - cbn. auto.
+  - cbn. intros _. exact Cc.
+  - intros X. destruct (HC2 X). assumption.
+  - cbn. intros X Y. destruct (HC3 X) as (_ & _ & _ & Z1). auto.
+Qed.
+
+Lemma step_caw_step g t lock o g' acts : Inv g -> gstep g t (GCawStep lock o) = Some (g', acts) -> Inv g'.
+Proof.
+  intros HI H. pose proof HI as [HG HT]. unfold gstep in H.
+  pose proof (HT t) as (T1 & T2 & T3 & T4 & T5 & T6).
+  destruct (cpc g t) as [ | oldf newf | | | d | d | | ] eqn:Ec; try discriminate.
+  - (* CDecide *)
+    assert (NI : CDecide oldf newf <> CIdle) by discriminate. destruct (T1 NI) as [Hca Cc].
+    destruct (deleted oldf) eqn:Do.
+    { injection H as <- <-. apply Inv_set_cpc; auto; try (rewrite Ec; discriminate); try (intros; discriminate).
+      intros _. apply (T2 oldf newf eq_refl Do). }
+    destruct (waiter newf) eqn:Wn.
+    { injection H as <- <-. apply Inv_set_cpc; auto; try (rewrite Ec; discriminate); intros; discriminate. }
+    destruct (activated g) eqn:Act; cbn [negb] in H.
+    + destruct lock.
+      * destruct (owner g) eqn:Ow; [discriminate|]. injection H as <- <-.
+        split.
+        -- apply GInv_cpc. apply G_take_lock; auto; try discriminate.
+        -- intros u. destruct (Z.eq_dec u t) as [->|Ne].
+           ++ apply (T_moved_simple g _ t CDirect); auto; cbn; try (rewrite Ec; discriminate); try (intros; discriminate).
+              apply upd_same.
+           ++ apply (TInv_frame g _ u); cbn; auto. apply upd_other. exact Ne.
+      * injection H as <- <-. apply Inv_set_cpc; auto; try (rewrite Ec; discriminate); intros; discriminate.
+    + rewrite Cc in H. destruct (activate_src (g_k g) o (g_s g)) as [s1 a] eqn:Ea. injection H as <- <-.
+      assert (E1 : s1 = fst (activate_src (g_k g) o (g_s g))) by (rewrite Ea; reflexivity).
+      assert (E2 : a = snd (activate_src (g_k g) o (g_s g))) by (rewrite Ea; reflexivity).
+      rewrite E1, E2.
+      pose proof (G_activate g o HG Act) as G1.
+      split; [apply GInv_cpc; exact G1|].
+      intros u. pose proof (T_activate g o u HG (HT u) Act) as Tu.
+      destruct (Z.eq_dec u t) as [->|Ne].
+      * revert Tu. set (g1 := set_activated _). intros Tu.
+        apply (T_moved_simple g1 _ t CRet); auto; cbn; try (rewrite Ec; discriminate); try (intros; discriminate).
+        -- apply upd_same.
+        -- intros _. destruct HG as ((HA1 & HA2 & _) & _).
+           assert (Ni : installed (g_s g) = false).
+           { destruct (installed (g_s g)) eqn:E; [|reflexivity]. rewrite (HA2 eq_refl) in Act. discriminate. }
+           apply (activate_src_eff (g_k g) o (g_s g) HA1 Ni). exact Cc.
+      * revert Tu. apply TInv_frame; cbn; auto. apply upd_other. exact Ne.
+  - (* CWLoad *)
+    injection H as <- <-. apply Inv_set_cpc; auto; try (rewrite Ec; discriminate); try (intros; discriminate).
+    intros d X D. injection X as <-. exact D.
+  - (* CWTest *)
+    assert (NI : CWTest d <> CIdle) by discriminate. destruct (T1 NI) as [Hca Cc].
+    destruct (deleted d) eqn:Dd.
+    { injection H as <- <-. apply Inv_set_cpc; auto; try (rewrite Ec; discriminate); try (intros; discriminate).
+      intros _. apply (T3 d eq_refl Dd). }
+    destruct (waiter d) eqn:Wd; cbn [negb] in H.
+    { injection H as <- <-. apply Inv_set_cpc; auto; try (rewrite Ec; discriminate); try (intros; discriminate).
+      intros d' X. injection X as <-. auto. }
+    destruct (flags_eqb (fl (g_s g)) d) eqn:Fe.
+    + apply flags_eqb_eq in Fe. subst d. injection H as <- <-.
+      split; [apply GInv_cpc; apply G_set_waiter; assumption|].
+      intros u. destruct (Z.eq_dec u t) as [->|Ne].
+      * unfold TInv. cbn. rewrite upd_same.
+        split; [intros _; split; assumption|]. split; [intros; discriminate|]. split; [intros; discriminate|].
+        split; [intros d X; injection X as <-; cbn; auto|]. split; [intros; discriminate|].
+        intros X. destruct (T6 X) as [Y _]. discriminate.
+      * assert (T : TInv (set_src g (with_fl (g_s g) (set_waiter (fl (g_s g)))) []) u).
+        { rewrite <- (set_origin_same (set_src g _ [])). change (origin (set_src g _ [])) with (origin g).
+          apply T_src_nil; [exact (HT u) | reflexivity | reflexivity | cbn; auto | cbn; auto]. }
+        revert T. apply TInv_frame; cbn; auto. apply upd_other. exact Ne.
+    + injection H as <- <-. apply Inv_set_cpc; auto; try (rewrite Ec; discriminate); try (intros; discriminate).
+      intros d' X D. injection X as <-. exact D.
+  - (* CWFutex *)
+    destruct (T4 d eq_refl) as [Wd Dd]. assert (NI : CWFutex d <> CIdle) by discriminate.
+    destruct (flags_eqb (fl (g_s g)) d && lock) eqn:Fe.
+    + apply andb_true_iff in Fe as [Fe _]. apply flags_eqb_eq in Fe. injection H as <- <-.
+      split; [apply GInv_slp, GInv_cpc; exact HG|].
+      intros u. destruct (Z.eq_dec u t) as [->|Ne].
+      * unfold TInv. cbn. rewrite !upd_same.
+        split; [intros _; apply T1; exact NI|]. split; [intros; discriminate|]. split; [intros; discriminate|].
+        split; [intros; discriminate|]. split; [intros; discriminate|].
+        intros _. rewrite Fe. auto.
+      * apply (TInv_frame g _ u); cbn; auto; apply upd_other; exact Ne.
+    + injection H as <- <-. apply Inv_set_cpc; auto; try (rewrite Ec; discriminate); intros; discriminate.
+  - (* CRet *)
+    injection H as <- <-. rewrite (T5 eq_refl). cbn [negb]. rewrite orb_false_r.
+    pose proof HG as (_ & _ & _ & _ & HE). rewrite HE.
+    split; [apply GInv_early, GInv_cpc; exact HG|].
+    intros u. destruct (Z.eq_dec u t) as [->|Ne].
+    + unfold TInv. cbn. rewrite upd_same.
+      split; [intros X; contradiction|]. split; [intros; discriminate|]. split; [intros; discriminate|].
+      split; [intros; discriminate|]. split; [intros; discriminate|].
+      intros X. destruct (T6 X) as [Y _]. discriminate.
+    + apply (TInv_frame g _ u); cbn; auto. apply upd_other. exact Ne.
+Qed.
+
+(* ------------------------------------------------------------------ every reachable state *)
+Lemma step_preserves g t a g' acts : Inv g -> gstep g t a = Some (g', acts) -> Inv g'.
+Proof.
+  intros HI H. destruct a.
+  - eapply step_activate; eassumption.
+  - eapply step_cancel; eassumption.
+  - eapply step_release; eassumption.
+  - eapply step_merge; eassumption.
+  - eapply step_event; eassumption.
+  - eapply step_hangup; eassumption.
+  - eapply step_invoke; eassumption.
+  - split; [eapply phase_G; eassumption | eapply phase_T; eassumption].
+  - eapply step_caw_enter; eassumption.
+  - eapply step_caw_step; eassumption.
+  - eapply step_futex_ret; eassumption.
+Qed.
+
+Theorem Inv_reach k ev ca rg g : reach k ev ca rg g -> Inv g.
+Proof.
+  unfold reach. apply invariant_lift.
+  - intros s ->. apply Inv_init.
+  - intros s [t a] s' HI [acts H]. eapply step_preserves; eassumption.
+Qed.
+
+(* ------------------------------------------------------------------ consequences *)
+Lemma activate_acts g o :
+  Inv g -> activated g = false ->
+  let a := snd (activate_src (g_k g) o (g_s g)) in
+  count AEhBegin a = 0 /\ count AChBegin a = 0 /\ existsb is_fin_twice a = false.
+Proof.
+  intros [((HA1 & HA2 & _) & _) _] Na. cbv zeta.
+  assert (Ni : installed (g_s g) = false).
+  { destruct (installed (g_s g)) eqn:E; [|reflexivity]. rewrite (HA2 eq_refl) in Na. discriminate. }
+  destruct (activate_src_eff (g_k g) o (g_s g) HA1 Ni) as (_ & _ & _ & _ & _ & E6 & _ & E8 & _ & _ & E11).
+  split; [exact E8|]. split; [exact E6|].
+  destruct (existsb is_fin_twice (snd (activate_src (g_k g) o (g_s g)))) eqn:X; [|reflexivity].
+  destruct HA1 as (S1 & _). destruct (S1 (E11 eq_refl)) as (_ & _ & I & _). congruence.
+Qed.
+
+(* the only steps that perform callouts or finalize twice could be phases of the lock owner *)
+Lemma nonphase_acts g t a g' acts :
+  Inv g -> gstep g t a = Some (g', acts) -> (forall o, a <> GPhase o) ->
+  count AEhBegin acts = 0 /\ count AChBegin acts = 0 /\ existsb is_fin_twice acts = false.
+Proof.
+  intros HI H Np. pose proof HI as [HG HT].
+  assert (Nil : acts = [] -> count AEhBegin acts = 0 /\ count AChBegin acts = 0 /\ existsb is_fin_twice acts = false)
+    by (intros ->; repeat split).
+  destruct a; unfold gstep in H.
+  - destruct (activated g || released (fl (g_s g))) eqn:E; [discriminate|]. apply orb_false_iff in E as [Na _].
+    destruct (activate_src (g_k g) o (g_s g)) as [s1 a] eqn:Ea. injection H as _ <-.
+    change a with (snd (s1, a)). rewrite <- Ea. apply activate_acts; assumption.
+  - destruct (released (fl (g_s g))); [discriminate|].
+    match type of H with (if ?c then _ else _) = _ => destruct c end; [discriminate|]. injection H as _ <-. auto.
+  - destruct (released (fl (g_s g))); [discriminate|]. injection H as _ <-. auto.
+  - destruct (released (fl (g_s g))); [discriminate|]. injection H as _ <-. auto.
+  - destruct (kreg (g_s g) && du_armed (g_s g)) eqn:E; [|discriminate]. apply andb_true_iff in E as [Kr _].
+    destruct HG as ((HA1 & _) & _). destruct HA1 as (_ & S2 & _).
+    match type of H with (if negb (registered ?s1) && _ then _ else _) = _ => assert (R : registered s1 = true) end.
+    { unfold registered. cbn. rewrite (S2 Kr). reflexivity. }
+    rewrite R in H. cbn [negb andb] in H. injection H as _ <-. auto.
+  - match type of H with (if ?c then _ else _) = _ => destruct c end; [|discriminate]. injection H as _ <-. auto.
+  - destruct (owner g); [discriminate|]. destruct (activated g); [|discriminate]. injection H as _ <-. auto.
+  - exfalso. apply (Np o). reflexivity.
+  - destruct (cpc g t); try discriminate.
+    match type of H with (if ?c then _ else _) = _ => destruct c end; [discriminate|].
+    destruct (m_caw_loop (g_k g) (fl (g_s g))); injection H as _ <-; auto.
+  - destruct (cpc g t) as [ | oldf newf | | | d | d | | ] eqn:Ec; try discriminate.
+    + destruct (deleted oldf); [injection H as _ <-; auto|].
+      destruct (waiter newf); [injection H as _ <-; auto|].
+      destruct (activated g) eqn:Act; cbn [negb] in H.
+      * destruct lock; [destruct (owner g); [discriminate|]|]; injection H as _ <-; auto.
+      * destruct (canceled (fl (g_s g))); [|discriminate].
+        destruct (activate_src (g_k g) o (g_s g)) as [s1 a] eqn:Ea. injection H as _ <-.
+        change a with (snd (s1, a)). rewrite <- Ea. apply activate_acts; assumption.
+    + injection H as _ <-. auto.
+    + destruct (deleted d); [injection H as _ <-; auto|].
+      destruct (negb (waiter d)); [|injection H as _ <-; auto].
+      destruct (flags_eqb (fl (g_s g)) d); injection H as _ <-; auto.
+    + destruct (flags_eqb (fl (g_s g)) d && lock); injection H as _ <-; auto.
+    + injection H as _ <-. auto.
+  - destruct (cpc g t); try discriminate. injection H as _ <-. auto.
+Qed.
+
+Section Consequences.
+  Variables (k : kind) (ev ca rg : bool).
+  Notation R := (reach k ev ca rg).
+
+  (* the cancel handler runs at most once, ever; once its slot has been released it has run exactly once, unless the
+     last reference was dropped on an uncancelled source (then it is disposed of, never called) *)
+  Theorem cancel_handler_exactly_once g : R g ->
+    0 <= ch_count g <= 1 /\ (h_ca (g_s g) = true -> ch_count g = 0) /\
+    (h_ca (g_s g) = false -> ch_set g = true -> released (fl (g_s g)) = false -> ch_count g = 1) /\
+    (ch_set g = false -> ch_count g = 0).
+  Proof.
+    intros Hr. destruct (Inv_reach _ _ _ _ _ Hr) as [(_ & HB & _) _].
+    destruct HB as (HB1 & HB2 & HB3 & HB4 & HB5 & HB6).
+    split; [exact HB1|]. split; [intros X; apply HB2; exact X|]. split.
+    - intros X Y Z. destruct (HB3 X Y) as [W|W]; [exact W|]. rewrite (HB6 W) in Z. discriminate.
+    - intros X. apply HB4. exact X.
+  Qed.
+
+  (* "Source finalized twice" is unreachable *)
+  Theorem finalized_once g t a g' acts : R g -> gstep g t a = Some (g', acts) -> existsb is_fin_twice acts = false.
+  Proof.
+    intros Hr H. pose proof (Inv_reach _ _ _ _ _ Hr) as HI.
+    assert (D : (exists o, a = GPhase o) \/ forall o, a <> GPhase o).
+    { destruct a; try (right; intros o' X; discriminate). left. eexists; reflexivity. }
+    destruct D as [[o ->]|Np]; [|apply (nonphase_acts g t a g' acts HI H Np)].
+    destruct HI as [(HA & _ & _ & HD & _) _]. destruct HA as (HA1 & _ & _ & _ & _ & HA6 & _). destruct HD as (_ & _ & _ & HD4).
+    pose proof (gstep_phase g t o g' acts H) as S. cbv zeta in S. destruct S as (_ & Ea & _).
+    pose proof (phase_facts2 (g_k g) (o_q g) o (mkI (g_s g) (o_pc g) (o_dqf g) (o_retq g) (o_avoid g))) as K.
+    cbv zeta in K. cbn [i_src i_pc i_dqf] in K. destruct K as (_ & _ & _ & K4 & _). rewrite <- Ea in K4.
+    destruct (existsb is_fin_twice acts) eqn:X; [|reflexivity]. exfalso.
+    destruct (K4 eq_refl) as (Dl & W). destruct HA1 as (S1 & _ & _ & _ & S5 & _).
+    destruct (S1 Dl) as (_ & Kr & In & _).
+    destruct W as [(Pc & Ni)|[(Pc & Nd)|(Pc & Dq)]].
+    - congruence.
+    - rewrite (S5 Nd) in Kr. discriminate.
+    - rewrite (HD4 Pc) in Dq. congruence.
+  Qed.
+
+  (* every event handler invocation starts from the committed point, on the target queue, by the lock owner, and never
+     once the cancel handler has run *)
+  Theorem event_handler_start g t a g' acts : R g -> gstep g t a = Some (g', acts) -> count AEhBegin acts <> 0 ->
+    ch_count g = 0 /\ o_pc g = OLatch /\ o_q g = QTarget /\ owner g = Some t /\ late_starts g = 0 /\
+    (canceled (fl (g_s g)) = true -> origin g = Some CxThread).
+  Proof.
+    intros Hr H Nz. pose proof (Inv_reach _ _ _ _ _ Hr) as HI.
+    assert (D : (exists o, a = GPhase o) \/ forall o, a <> GPhase o).
+    { destruct a; try (right; intros o' X; discriminate). left. eexists; reflexivity. }
+    destruct D as [[o ->]|Np]; [|destruct (nonphase_acts g t a g' acts HI H Np) as [X _]; contradiction].
+    destruct HI as [(_ & _ & HC & _) _]. destruct HC as (_ & _ & HC3).
+    pose proof (gstep_phase g t o g' acts H) as S. cbv zeta in S. destruct S as (Ow & Ea & _).
+    pose proof (phase_facts (g_k g) (o_q g) o (mkI (g_s g) (o_pc g) (o_dqf g) (o_retq g) (o_avoid g))) as F.
+    cbv zeta in F. cbn [i_src i_pc i_dqf] in F. destruct F as (_ & _ & _ & F4 & _). rewrite <- Ea in F4.
+    destruct F4 as [Z0|(_ & Pc & _)]; [contradiction|]. destruct (HC3 Pc) as (L0 & C0 & Q & Org).
+    repeat split; auto.
+  Qed.
+
+  (* the cancel handler starts only from a phase of the lock owner running on the target queue, with CANCELED and DELETED
+     set and nothing registered with the event system any more *)
+  Theorem cancel_handler_start g t a g' acts : R g -> gstep g t a = Some (g', acts) -> count AChBegin acts <> 0 ->
+    o_q g = QTarget /\ owner g = Some t /\ o_pc g = OP4 /\ canceled (fl (g_s g)) = true /\ deleted (fl (g_s g)) = true /\
+    kreg (g_s g) = false /\ registered (g_s g) = false /\ ch_count g = 0.
+  Proof.
+    intros Hr H Nz. pose proof (Inv_reach _ _ _ _ _ Hr) as HI.
+    assert (D : (exists o, a = GPhase o) \/ forall o, a <> GPhase o).
+    { destruct a; try (right; intros o' X; discriminate). left. eexists; reflexivity. }
+    destruct D as [[o ->]|Np]; [|destruct (nonphase_acts g t a g' acts HI H Np) as (_ & X & _); contradiction].
+    destruct HI as [(HA & HB & _ & HD & _) _]. destruct HA as (HA1 & _ & _ & _ & _ & _ & HA7).
+    destruct HB as (_ & HB2 & _). destruct HD as (_ & HD2 & _).
+    pose proof (gstep_phase g t o g' acts H) as S. cbv zeta in S. destruct S as (Ow & Ea & _).
+    pose proof (phase_facts (g_k g) (o_q g) o (mkI (g_s g) (o_pc g) (o_dqf g) (o_retq g) (o_avoid g))) as F.
+    cbv zeta in F. cbn [i_src i_pc i_dqf] in F. destruct F as (_ & _ & F3 & _). rewrite <- Ea in F3.
+    destruct F3 as [Z0|(_ & Hh & _ & Cc & W)]; [contradiction|].
+    destruct W as [(Pc & Q & Dd)|(Pc & _)].
+    - pose proof (HD2 Dd) as Dl. destruct HA1 as (S1 & _). destruct (S1 Dl) as (Rg & Kr & _).
+      destruct (HB2 Hh) as [C0 _]. repeat split; auto.
+    - assert (X : in_cd (o_pc g) = true) by (rewrite Pc; reflexivity). destruct (HA7 X) as [Y _]. congruence.
+  Qed.
+
+  (* after CANCELED is set at most one event handler invocation starts, and none at all when the cancel that set the flag
+     was issued from the source's handler or from an item on the serial target queue *)
+  Theorem at_most_one_late_start g : R g ->
+    0 <= late_starts g <= 1 /\ (1 <= late_starts g -> origin g = Some CxThread) /\
+    (origin g = Some CxHandler \/ origin g = Some CxTqItem -> late_starts g = 0).
+  Proof.
+    intros Hr. destruct (Inv_reach _ _ _ _ _ Hr) as [(_ & _ & HC & _) _]. destruct HC as (HC1 & HC2 & _).
+    split; [exact HC1|]. split; [intros X; apply HC2; exact X|].
+    intros X. destruct (Z.eq_dec (late_starts g) 0) as [|Ne]; [assumption|].
+    assert (Y : 1 <= late_starts g) by lia. destruct (HC2 Y) as [_ Z1]. destruct X as [X|X]; congruence.
+  Qed.
+
+  (* cancel_and_wait: a sleeping caller implies the waiter bit is set and DELETED is not, so the finalize that sets DELETED
+     sees the bit and wakes; a step that sets DELETED leaves nobody asleep; no call returns before DELETED is set *)
+  Theorem sleepers_woken g : R g ->
+    (forall u, slp g u = true -> cpc g u = CWSleep /\ waiter (fl (g_s g)) = true /\ deleted (fl (g_s g)) = false) /\
+    caw_early g = false.
+  Proof.
+    intros Hr. destruct (Inv_reach _ _ _ _ _ Hr) as [(_ & _ & _ & _ & HE) HT]. split; [|exact HE].
+    intros u. apply HT.
+  Qed.
+  Theorem deletion_wakes_everyone g t a g' acts : R g -> gstep g t a = Some (g', acts) ->
+    deleted (fl (g_s g')) = true -> forall u, slp g' u = false.
+  Proof.
+    intros Hr H D u. pose proof (Inv_reach _ _ _ _ _ Hr) as HI.
+    destruct (step_preserves g t a g' acts HI H) as [_ HT].
+    destruct (slp g' u) eqn:E; [|reflexivity]. destruct (HT u) as (_ & _ & _ & _ & _ & T6).
+    destruct (T6 E) as (_ & _ & X). congruence.
+  Qed.
+
+  (* structure: DELETED means unregistered *)
+  Theorem deleted_means_unregistered g : R g -> Sinv (g_k g) (g_s g).
+  Proof. intros Hr. destruct (Inv_reach _ _ _ _ _ Hr) as [((HA1 & _) & _) _]. exact HA1. Qed.
+
+  (* convergence: whatever the history, a cancelled source for which _dispatch_source_wakeup has nothing more to ask is in the
+     one final state, or parked on DSF_NEEDS_EVENT *)
+  Theorem converges_any_backend g : R g -> canceled (fl (g_s g)) = true ->
+    (forall o, wakeup_target (g_k g) o false false (g_s g) = RNone) ->
+    final_src (g_s g) \/ (needs_event (fl (g_s g)) = true /\ deleted (fl (g_s g)) = false).
+  Proof. intros Hr. apply wakeup_final. apply deleted_means_unregistered. exact Hr. Qed.
+End Consequences.
+
+(* ------------------------------------------------------------------ this platform: no deferred deletion *)
+Lemma nonphase_needs_event g t a g' acts :
+  Inv g -> gstep g t a = Some (g', acts) -> (forall o, a <> GPhase o) ->
+  needs_event (fl (g_s g')) = true -> needs_event (fl (g_s g)) = true.
+Proof.
+  intros HI H Np. pose proof HI as [HG HT].
+  assert (Act : forall o, activated g = false ->
+            needs_event (fl (fst (activate_src (g_k g) o (g_s g)))) = true -> needs_event (fl (g_s g)) = true).
+  { intros o Na X. destruct HG as ((HA1 & HA2 & _) & _).
+    assert (Ni : installed (g_s g) = false).
+    { destruct (installed (g_s g)) eqn:E; [|reflexivity]. rewrite (HA2 eq_refl) in Na. discriminate. }
+    destruct (activate_src_eff (g_k g) o (g_s g) HA1 Ni) as (E1 & _ & _ & _ & _ & _ & _ & _ & E9 & _).
+    destruct E9 as [[Y _]|(_ & _ & Y)]; [rewrite <- Y; exact X|].
+    destruct E1 as (S1 & _). destruct (S1 Y) as (_ & _ & _ & _ & Z1). congruence. }
+  destruct a; unfold gstep in H.
+  - destruct (activated g || released (fl (g_s g))) eqn:E; [discriminate|]. apply orb_false_iff in E as [Na _].
+    destruct (activate_src (g_k g) o (g_s g)) as [s1 a] eqn:Ea. injection H as <- _. cbn.
+    change s1 with (fst (s1, a)). rewrite <- Ea. apply Act. exact Na.
+  - destruct (released (fl (g_s g))); [discriminate|].
+    match type of H with (if ?c then _ else _) = _ => destruct c end; [discriminate|]. injection H as <- _. cbn. auto.
+  - destruct (released (fl (g_s g))); [discriminate|]. injection H as <- _. cbn. auto.
+  - destruct (released (fl (g_s g))); [discriminate|]. injection H as <- _. cbn. auto.
+  - destruct (kreg (g_s g) && du_armed (g_s g)) eqn:E; [|discriminate]. apply andb_true_iff in E as [Kr _].
+    destruct HG as ((HA1 & _) & _). destruct HA1 as (_ & S2 & _).
+    match type of H with (if negb (registered ?s1) && _ then _ else _) = _ => assert (R : registered s1 = true) end.
+    { unfold registered. cbn. rewrite (S2 Kr). reflexivity. }
+    rewrite R in H. cbn [negb andb] in H. injection H as <- _. cbn. auto.
+  - match type of H with (if ?c then _ else _) = _ => destruct c end; [|discriminate]. injection H as <- _. cbn. auto.
+  - destruct (owner g); [discriminate|]. destruct (activated g); [|discriminate]. injection H as <- _. cbn. auto.
+  - exfalso. apply (Np o). reflexivity.
+  - destruct (cpc g t); try discriminate.
+    match type of H with (if ?c then _ else _) = _ => destruct c end; [discriminate|].
+    destruct (m_caw_loop (g_k g) (fl (g_s g))) as [f'|] eqn:L; injection H as <- _; cbn; auto.
+    destruct (caw_loop_some _ _ _ L) as (_ & _ & _ & _ & N & _). rewrite N. auto.
+  - destruct (cpc g t) as [ | oldf newf | | | d | d | | ] eqn:Ec; try discriminate.
+    + destruct (deleted oldf); [injection H as <- _; cbn; auto|].
+      destruct (waiter newf); [injection H as <- _; cbn; auto|].
+      destruct (activated g) eqn:Na; cbn [negb] in H.
+      * destruct lock; [destruct (owner g); [discriminate|]|]; injection H as <- _; cbn; auto.
+      * destruct (canceled (fl (g_s g))); [|discriminate].
+        destruct (activate_src (g_k g) o (g_s g)) as [s1 a] eqn:Ea. injection H as <- _. cbn.
+        change s1 with (fst (s1, a)). rewrite <- Ea. apply Act. reflexivity.
+    + injection H as <- _. cbn. auto.
+    + destruct (deleted d); [injection H as <- _; cbn; auto|].
+      destruct (negb (waiter d)); [|injection H as <- _; cbn; auto].
+      destruct (flags_eqb (fl (g_s g)) d) eqn:Fe; injection H as <- _; cbn; auto.
+      apply flags_eqb_eq in Fe. subst d. auto.
+    + destruct (flags_eqb (fl (g_s g)) d && lock); injection H as <- _; cbn; auto.
+    + injection H as <- _. cbn. auto.
+  - destruct (cpc g t); try discriminate. injection H as <- _. cbn. auto.
+Qed.
+
+Lemma reachL_reach k ev ca rg g : reachL k ev ca rg g -> reach k ev ca rg g.
+Proof.
+  intros Hr. induction Hr as [s Hi | s a s' Hr IH [Hs _]].
+  - apply reach_init. exact Hi.
+  - eapply reach_step; eassumption.
+Qed.
+
+Theorem no_deferred_deletion k ev ca rg g : reachL k ev ca rg g -> needs_event (fl (g_s g)) = false.
+Proof.
+  intros Hr. induction Hr as [s Hi | s [t a] s' Hr IH [[acts Hs] Hl]].
+  - subst s. reflexivity.
+  - cbn in Hs, Hl. pose proof (Inv_reach _ _ _ _ _ (reachL_reach _ _ _ _ _ Hr)) as HI.
+    destruct (needs_event (fl (g_s s'))) eqn:X; [|reflexivity].
+    assert (D : (exists o, a = GPhase o) \/ forall o, a <> GPhase o).
+    { destruct a; try (right; intros o' Y; discriminate). left. eexists; reflexivity. }
+    destruct D as [[o ->]|Np].
+    + pose proof (gstep_phase s t o s' acts Hs) as S. cbv zeta in S. destruct S as (_ & _ & Es & _).
+      rewrite Es in X. apply phase_needs_event in X. cbn [i_src] in X. cbn in Hl. destruct X; congruence.
+    + rewrite (nonphase_needs_event s t a s' acts HI Hs Np X) in IH. discriminate.
+Qed.
+
+(* C16_converges on this platform: one final state, whatever the history *)
+Theorem converges k ev ca rg g : reachL k ev ca rg g -> canceled (fl (g_s g)) = true ->
+  (forall o, wakeup_target (g_k g) o false false (g_s g) = RNone) -> final_src (g_s g).
+Proof.
+  intros Hr Hc Hw. destruct (converges_any_backend k ev ca rg g (reachL_reach _ _ _ _ _ Hr) Hc Hw) as [F|[N _]]; [exact F|].
+  rewrite (no_deferred_deletion _ _ _ _ _ Hr) in N. discriminate.
 Qed.
